@@ -59,6 +59,11 @@ Sensitivity (quick tier, seed 1, one mutant at a time on a scratch copy of torna
       UnicodeError for an EMPTY LABEL such as "4.4..4", ".1.2.3", "."), so _apply_xheaders raises and the connection is dropped
        -> caught at seeds 1, 2, 3 by the new exhaustive ``grid`` part (C32.uncaught_exception on X-Real-Ip "4.4..4" / "."); before it
           was caught only when the random soup happened to produce an empty label (missed at seed 3).
+  M12 X-Forwarded-For split with rsplit(",", len(trusted_downstream) + 1) instead of a full split
+       -> caught at seeds 1, 2, 3 by the new exhaustive ``repeat`` part (C32.proxy_ip_ignored: "1.2.3.4,10.0.0.1,10.0.0.1,10.0.0.1" with
+          T={10.0.0.1} -> socket address): trusted proxies repeated 1-6 times (same / alternating), 1-3 trusted hosts, 0-3 leading
+          entries, three separators, two server APIs (648 cases), plus repeated-trusted lists in the random generator; MISSED before:
+          lists never had more trailing trusted entries than distinct trusted hosts.
   M8 _ProxyAdapter.on_connection_close does not call _cleanup (DESIGN's first mutant) -> NOT caught, and not
      catchable through the statement: the context belongs to one connection and on_connection_close means that
      connection is gone, so no later request can observe the stale values (equivalent mutant for this property).
@@ -112,8 +117,11 @@ ip_s = st.one_of(st.sampled_from(STRICT_V4 + STRICT_V6), st.sampled_from(STRICT_
                  st.sampled_from(LENIENT), st.sampled_from(GARBAGE), soup_ip_s)
 pad_s = st.sampled_from(["", "", "", " ", "\t", "  "])
 xff_entry_s = st.one_of(ip_s, ip_s, st.sampled_from(TRUST_POOL), st.sampled_from(TRUST_POOL), st.just(""))
-xff_line_s = st.lists(st.tuples(pad_s, xff_entry_s, pad_s), min_size=1, max_size=4).map(
+_xff_plain_s = st.lists(st.tuples(pad_s, xff_entry_s, pad_s), min_size=1, max_size=4).map(
     lambda es: ",".join(a + e + b for a, e, b in es).strip(" \t"))
+_xff_repeat_s = st.tuples(st.lists(xff_entry_s, min_size=1, max_size=3), st.lists(st.sampled_from(TRUST_POOL), min_size=2, max_size=6),
+                          st.sampled_from([",", ", "])).map(lambda t: t[2].join(t[0] + t[1]).strip(" \t"))
+xff_line_s = st.one_of(_xff_plain_s, _xff_plain_s, _xff_plain_s, _xff_repeat_s)
 
 
 @st.composite
@@ -199,6 +207,9 @@ def reference(hdrs, trusted, sock_ip, conn_proto):
                 if variant is entries:
                     if variant[-1] in trusted:
                         labels.add("trusted_skip")
+                    ntrail = len(variant) - 1 - max(i for i, e in enumerate(variant) if e not in trusted)
+                    if ntrail > len(trusted):
+                        labels.add("trusted_repeated")  # more trailing trusted entries than distinct trusted hosts
                     labels.add("xff_" + numeric_class(c))
             else:
                 labels.add("all_trusted_either")
@@ -494,13 +505,35 @@ def grid_cases():
                        "requests": [("get", hdrs), ("get", []), ("get", [("X-Scheme", "https")] + hdrs)]}
 
 
+# Boundary family for the trusted-proxy skip: the same trusted address REPEATED so that trusted entries fill more trailing
+# positions than there are distinct trusted hosts (lists longer than len(trusted) + 2), with 1-2 trusted hosts, extra entries
+# before the client, and padding variants.  The candidate is always the rightmost untrusted entry.
+def repeat_cases():
+    t1, t2 = "10.0.0.1", "192.168.0.1"
+    for api in ("app", "callable"):
+        for trusted in ([t1], [t1, t2], [t2, t1, "::1"]):
+            for reps in range(1, 7):
+                for pattern in ("same", "alternate"):
+                    tail = [t1] * reps if pattern == "same" else [(trusted[i % min(2, len(trusted))]) for i in range(reps)]
+                    for lead in ([], ["9.9.9.9"], ["9.9.9.9", "unknown", "8.8.4.4"]):
+                        for sep in (", ", ",", " , "):
+                            xff = sep.join(lead + ["1.2.3.4"] + tail)
+                            yield {"api": api, "xheaders": True, "sock": ("v4", "203.0.113.9"), "trusted": list(trusted), "conn_proto": None,
+                                   "requests": [("get", [("X-Forwarded-For", xff)]), ("get", [])]}
+
+
+def run_repeat_case(ctx, case):
+    run_case(ctx, case)
+    ctx.label("repeated_trusted_grid")
+
+
 def run_grid_case(ctx, case):
     run_case(ctx, case)
     ctx.label("grid")
 
 
-PARTS = {"main": run_case, "grid": run_grid_case}
-REQUIRED = ["grid", "api_app", "api_delegate", "api_callable", "xheaders_off", "leak_probe", "trusted_skip", "garbage_ip", "proto_list", "ip_from_header", "proto_from_header", "kind_early",
+PARTS = {"main": run_case, "grid": run_grid_case, "repeat": run_repeat_case}
+REQUIRED = ["grid", "repeated_trusted_grid", "trusted_repeated", "api_app", "api_delegate", "api_callable", "xheaders_off", "leak_probe", "trusted_skip", "garbage_ip", "proto_list", "ip_from_header", "proto_from_header", "kind_early",
             "kind_bad", "sock_unix", "sock_v6", "all_trusted_either"]
 
 
@@ -508,6 +541,7 @@ def main(ctx):
     ctx.run_replays(PARTS)
     ctx.explore(case_s, run_case, ctx.n(1500, 60000), name="main")
     ctx.enumerate(grid_cases(), run_grid_case, name="grid")
+    ctx.enumerate(repeat_cases(), run_repeat_case, name="repeat")
     for lab in REQUIRED:
         if not ctx.violations and not ctx.labels.get(lab):
             ctx.warnings.append("required label never hit: %s" % lab)
